@@ -10,6 +10,7 @@ import (
 
 	"verif/internal/ev"
 	"verif/internal/props"
+	"verif/internal/rng"
 )
 
 func main() {
@@ -47,7 +48,8 @@ func main() {
 			if u.Name != *only {
 				continue
 			}
-		} else if i%*shards != *shard {
+		} else if int(rng.HashString(u.Name)%uint64(*shards)) != *shard {
+			// units are spread by name hash: heavy unit types recur with a fixed period in the list
 			continue
 		}
 		res.LogCase("unit %d %s", i, u.Name)
